@@ -11,8 +11,7 @@ def ref_normalize(value: str):
         return "0" * (8 - len(v)) + v + BASE
     if len(v) == 36:
         return v
-    digits = v.replace("-", "")
-    if len(digits) > 32 or not digits or any(c not in HEX for c in digits):
+    digits = v.rjust(32, "0").replace("-", "")      # left-padded to 32 characters, then hyphens are ignored
+    if len(digits) != 32 or any(c not in HEX for c in digits):
         return None
-    digits = digits.rjust(32, "0")
     return "-".join([digits[0:8], digits[8:12], digits[12:16], digits[16:20], digits[20:32]])
